@@ -90,6 +90,17 @@ def check(rep, tier, seed):
         tcases.append("read %s" % (good + " ".join(vals).encode() + b"\n").hex()); tlabels.append(("values line written twice", False))
         tcases.append("read %s" % (good + b"\n\n").hex()); tlabels.append(("valid, trailing blank lines", True))
         tcases.append("read %s" % (text_spectrum(sh, vals[:-1]) + vals[-1].encode() + b"\n").hex()); tlabels.append(("valid, last token on a second line", True))
+    # declared shapes whose true product is 2^64 or more (a wrapped product could match the number of values: 0, or the real
+    # count), in the debug AND the release build: the number of values differs from the product, so the file must be rejected
+    ocases = []
+    for shp, vals in (([2**32, 2**32], []), ([2**32, 2**32], ["1"]), ([2**63, 2], []), ([2**63, 2, 3], ["1", "2"]), ([2**64 - 1, 2**64 - 1], ["1"]),
+                      ([2**32, 2**32 + 1], ["1"] * 1), ([2**33, 2**31, 3], ["1", "2", "3"]), ([3, 2**64], ["1", "2", "3"]), ([2**64, 1], [])):
+        ocases.append("read %s" % text_spectrum(shp, vals).hex())
+    mo_o, outs_o = compare_cases(rep, "text-overflowing-shape", ocases, nontrivial=lambda c, m: True,
+                                 classify=lambda c, m, i: "damage:text-overflowing-shape", spec=True, both_builds=True)
+    for c, m in zip(list(dict.fromkeys(ocases)), mo_o):
+        if m != "ERR":
+            rep.fail(kind="harness-error", cls="harness-error", case=c, expected="ERR", observed=m, detail="the model accepted an overflowing shape", failing_input=False)
     mo_t, outs_t = compare_cases(rep, "text-damage", tcases, nontrivial=lambda c, m: True, classify=lambda c, m, i: "damage:text-model-vs-impl", spec=True)
     uniq_t = list(dict.fromkeys(tcases)); pos_t = {c: k for k, c in enumerate(uniq_t)}
     for c, (what, valid) in zip(tcases, tlabels):
@@ -119,8 +130,8 @@ def check(rep, tier, seed):
             rep.fail(kind="property-oracle", cls="damage:binary-accepted", case=lab, argv=["sfs"] + job[0], stdin_hex=job[1].hex()[:3000],
                      observed={"rc": rc, "stdout": so[:200].decode(errors="replace")}, expected="non-zero exit, empty stdout",
                      detail="the binary accepted or partially processed a damaged file")
-    rep.assumptions += ["shape products below 2^64 (overflow of the declared shape is C17's subject)"]
+    rep.assumptions += ["npy cases: shape products below 2^64; text cases include declared shapes whose product overflows (both builds)"]
 
 
 if __name__ == "__main__":
-    sys.exit(standard_main("C16", check, sys.argv[1:], RULE, needs_cli=True))
+    sys.exit(standard_main("C16", check, sys.argv[1:], RULE, needs_cli=True, needs_release=True))
